@@ -20,6 +20,32 @@
       (tcp / abstract unix addresses; a filesystem socket is unlinked first — C19's concern);
     * `Close` of a closed listener fails and changes nothing.
   Core Lean only.
+
+  Transition table (the code as it is NOW; replaces DESIGN.md Appendix C, which describes the code before the
+  repairs).  Shared: running, lst (the field), lsnrs (open?, armed?, address), counter, addrF.  Call k: pc, l, cur,
+  wg, ret.  All accesses of shared fields are under the mutex except refreshTimeout's read of `s.listener` (★).
+
+  | pc          | code                                                    | effect                                                        |
+  |-------------|---------------------------------------------------------|---------------------------------------------------------------|
+  | bindCheck   | Bind: lock; read running; unlock                        | running ⇒ ret := already-running, RETURN (no teardown)         |
+  | parse       | parseAddress                                            | error ⇒ RETURN it; else protocol/address written               |
+  | listenSys   | setListener: activation / net listen                    | address held by an open listener ⇒ RETURN error; else new l    |
+  | store       | setListener: lock; listener = l; unlock                 | Bind alone: RETURN nil; Listen: → setRunning                   |
+  | readLst     | DoListen: (defer teardown first) lock; l := listener; unlock | nil ⇒ ret := no-listener, → teardown                     |
+  | setRunning  | lock; running = true; (Listen: l := listener); unlock   | → loopCheck                                                   |
+  | loopCheck   | isRunning()                                             | false ⇒ ret := nil, → teardown; timeout ≠ 0 ⇒ refresh          |
+  | refresh     | refreshTimeout: SetDeadline on the FIELD listener ★     | nil field ⇒ no-op; closed ⇒ ret := err, → teardown; else armed |
+  | inAccept    | l.Accept()                                              | conn waiting ∧ open ⇒ gotConn; closed ⇒ errOther; else blocked; |
+  |             |                                                         | expiry (label `expire`, needs armed ∧ open) ⇒ errTimeout       |
+  | gotConn     | lock; conncounter++; unlock                             | → counted                                                     |
+  | counted     | wg.Add(1); go handleConnection                          | → loopCheck                                                   |
+  | errTimeout  | lock; read conncounter; unlock                          | 0 ⇒ ret := Timeout, → teardown; else → loopCheck               |
+  | errOther    | isRunning()                                             | false ⇒ ret := nil else ret := err; → teardown                 |
+  | teardown    | lock; listener ≠ nil ⇒ Close it; listener = nil; running = false; protocol, address = ""; unlock | → waiting |
+  | waiting     | wg.Wait()                                               | enabled when wg = 0; → returned                               |
+  | handler     | reading ↔ dispatching → closing → conn.Close() → closed → lock; counter--; unlock → decremented → wg.Done() → done |
+  | Shutdown    | lock; running = false; listener ≠ nil ⇒ Close it; unlock | one atomic step; error iff that listener was closed already    |
+  | Register    | lock; refused iff present ∨ running ∨ conncounter > 0; unlock |                                                          |
 -/
 namespace Varlink.Life
 
